@@ -221,7 +221,7 @@ _CURVE = re.compile(r"^\\draw\[color=linkColor([A-Za-z]*), [^\]]*\] \((%s), (%s)
 _LINE = re.compile(r"^\\draw\[color=linkColor([A-Za-z]*), [^\]]*\] \((%s), (%s)\) -- \((%s), (%s)\);$" % ((_NUM,) * 4))
 _BOX_FILL = re.compile(r"^\\fill\[color=labelBgColor([A-Za-z]*), rounded corners=2pt\]\n\(0, 0\) rectangle \((%s), (%s)\) node\[[^\]]*text=labelTextColor([A-Za-z]*)\] \{\\strut (.*)\};$" % (_NUM, _NUM), re.S)
 _BOX_DRAW = re.compile(r"^\\draw\[[^\],]*, borderColor([A-Za-z]*), fill=labelBgColor([A-Za-z]*), rounded corners=2pt\]\n\(0, 0\) rectangle \((%s), (%s)\) node\[[^\]]*text=labelTextColor([A-Za-z]*)\] \{\\strut (.*)\};$" % (_NUM, _NUM), re.S)
-_DOT = re.compile(r"^\\draw node \[circle, inner sep=0pt, minimum size=([^,]*)bp, \nfill=dotColor([A-Za-z]*)\] at \((%s), (%s)\) \{\};$" % (_NUM, _NUM))
+_DOT = re.compile(r"^\\draw node \[circle, inner sep=0pt, minimum size=([^,]*)bp, ?\nfill=dotColor([A-Za-z]*)\] at \((%s), (%s)\) \{\};$" % (_NUM, _NUM))
 _TICK = re.compile(r"^\\begin\{scope\}\[shift=\{\(\s*(%s)\s*,\s*(%s)\s*\)\}\]\n\\draw\[[^\]]*\] \(([^,]*), ([^)]*)\) -- \(([^,]*), ([^)]*)\)\nnode\[anchor=(\w+)\] \{(.*)\};$" % (_NUM, _NUM), re.S)
 
 
@@ -576,7 +576,7 @@ def parse_tikz(doc):
         raise Unparseable("picture must hold exactly the margin scope")
     margin = root.children[0]
     m = _SHIFT.match(margin.header)
-    if not m or margin.lines or len(margin.children) != 1:
+    if not m or margin.lines or len(margin.children) < 1:
         raise Unparseable("margin scope")
     P.margin_shift = (float(m.group(1)), float(m.group(2)))
     main = margin.children[0]
@@ -585,7 +585,12 @@ def parse_tikz(doc):
         raise Unparseable("main scope")
     P.main_shift = (float(m.group(1)), float(m.group(2)))
     seen = set()
-    for layer in main.children:
+    # layers that stand beside the main layer instead of inside it do not get its shift: the elements are read all the same
+    # (so that counts and colours can be judged) and the document is marked defective unless that shift is zero
+    stray = [sc for sc in margin.children[1:]]
+    if stray and P.main_shift != (0.0, 0.0):
+        P.defects.append("%d layer(s) drawn outside the main layer scope: they miss its shift %r" % (len(stray), P.main_shift))
+    for layer in list(main.children) + stray:
         if layer.header != "\\begin{scope}":
             raise Unparseable("layer scope with options: %r" % layer.header[:60])
         stmts = _statements(layer.text())
